@@ -34,7 +34,7 @@ ASSUMPTIONS = [
 ]
 LEVEL_TEXT = "Random exploration of all views with structured and mutated inputs; DNS round trip against an independent wire parser."
 LEVEL_NOTE = "flow/message construction via mitmproxy.test.tflow; zipfile/json from the standard library to build inputs"
-QUICK_N = 60_000
+QUICK_N = 40_000
 THOROUGH_N = 3_000_000
 
 VIEWS = ["auto", "dns", "graphql", "grpc", "hex dump", "hex stream", "http/3 frames", "image", "javascript", "json", "mqtt",
@@ -502,7 +502,7 @@ def check_case(case, ctx):
 
     # ---------------- DNS round trip
     if case["family"] == "dns" and str(vname).lower() == "dns" and ok_render and case["view"] in ("dns", "auto"):
-        data = bytes(case["data"])
+        data = bytes(msg.content)   # what the view actually saw (text frames are valid UTF-8, DNS messages are re-packed)
         tcp_framed = case["msg"] == "tcp"
         wire = data[2:] if tcp_framed else data
         try:
@@ -538,6 +538,14 @@ def check_case(case, ctx):
                         sub = "undecodable-rdata-placeholder"
                 if k == "flags" and (ref[k] ^ got[k]) & ~0x0070 == 0:
                     sub = "flags:z-ad-cd-bits-dropped"
+                if sub.startswith("record") or sub in ("questions",):
+                    # is the change already made by DNSMessage.unpack/pack alone (no view involved)?  -> other root cause (cf. C26)
+                    try:
+                        from mitmproxy import dns as _dns
+                        if ref_parse(_dns.DNSMessage.unpack(wire).packed)[k] != ref[k]:
+                            sub = "unpack-pack-alone-changes-message"
+                    except Exception:
+                        pass
                 if case["msg"] in ("http-req", "http-resp"):
                     # the view strips a 2-byte length prefix from HTTP bodies too, but DoH bodies (RFC 8484) have none:
                     # what was rendered (and re-encoded) is a different message
